@@ -6,7 +6,10 @@ import (
 	"fmt"
 	"io"
 	"os"
+	"path/filepath"
 	"sort"
+	"strings"
+	"time"
 
 	"flamingo.me/pugtemplate/pugjs"
 )
@@ -18,6 +21,9 @@ import (
 //     neither LoadTemplates nor Render has run) and then the RenderPartials call that is judged;
 //   - the REFERENCE engine is a separate, preloaded, non-debug engine; every name of `universe` is
 //     rendered on it alone by Engine.Render.
+// The template name of the request and the requested partial names are arbitrary strings (also ones
+// written with path syntax: trailing slashes, "./", "..", doubled slashes, other case); they are handed
+// to the engine verbatim, the file tree itself only has clean relative paths.
 // Every call (reference renders, prep operations, the judged call) gets its own freshly built copy of
 // the data, as ordinary Go values (maps / slices / strings / numbers), so "the same data" means the
 // same value, never the same object.
@@ -35,12 +41,13 @@ type c17Case struct {
 // c17Op is one earlier call on the engine under test.
 //   load              LoadTemplates("")
 //   render  name      Engine.Render(name) (full template name), fresh data
-//   partials names    Engine.RenderPartials(template, names), fresh data, result drained
+//   partials names    Engine.RenderPartials(t or the case's template, names), fresh data, result drained
 // An earlier call may come with its own data (another request), else it gets a copy of the case's data.
 type c17Op struct {
 	Op    string   `json:"op"`
 	Name  string   `json:"name,omitempty"`  // hex
 	Names []string `json:"names,omitempty"` // hex
+	T     *string  `json:"t,omitempty"`     // hex: template name of an earlier RenderPartials (default: the case's)
 	// Data, when present, is the data of this earlier call (another request's data); otherwise the case's data
 	Data json.RawMessage `json:"data,omitempty"`
 }
@@ -133,9 +140,11 @@ type c17Entry struct {
 }
 
 type c17Obs struct {
+	Tree    []string      `json:"tree"`    // hex: every file <name>.ast.json found below template/page, as <name>
 	Alone   []c17AloneObs `json:"alone"`   // reference engine
 	Prep    []string      `json:"prep"`    // outcome class of every prep operation (diagnostic)
 	Class   string        `json:"class"`   // ok | error | exec_panic
+	Stalled bool          `json:"stalled"` // some call on the engine under test was still waiting when its deadline expired
 	NilMap  bool          `json:"nil_map"` // result map is nil
 	Entries []c17Entry    `json:"entries"`
 }
@@ -144,6 +153,14 @@ type c17AloneObs struct {
 	Name string       `json:"name"` // hex
 	Res  renderResult `json:"res"`
 }
+
+// deadlines of the calls on the engine under test (a render of these templates takes milliseconds)
+const (
+	c17Deadline           = 5 * time.Second
+	c17DeadlineAfterStall = 300 * time.Millisecond
+)
+
+var c17RunStalled bool
 
 func init() {
 	runners["C17"] = func(in json.RawMessage) (interface{}, error) {
@@ -212,6 +229,21 @@ func runC17(c c17Case) (obs c17Obs, err error) {
 		return obs, err
 	}
 	os.MkdirAll(dir+"/template/page", 0o755)
+	// what is really on disk (the spec side decides existence of a partial by membership in this set)
+	root := filepath.Join(dir, "template", "page")
+	obs.Tree = []string{}
+	if err := filepath.Walk(root, func(p string, info os.FileInfo, err error) error {
+		if err != nil {
+			return err
+		}
+		if !info.IsDir() && strings.HasSuffix(p, ".ast.json") {
+			rel := filepath.ToSlash(strings.TrimPrefix(p, root+string(filepath.Separator)))
+			obs.Tree = append(obs.Tree, hx(strings.TrimSuffix(rel, ".ast.json")))
+		}
+		return nil
+	}); err != nil {
+		return obs, err
+	}
 	if _, err := c17Build(c.Data); err != nil {
 		return obs, err
 	}
@@ -233,9 +265,26 @@ func runC17(c c17Case) (obs c17Obs, err error) {
 		obs.Alone = append(obs.Alone, c17AloneObs{Name: u, Res: r})
 	}
 
-	// engine under test: its history, then the judged call
+	// engine under test: its history, then the judged call.  One goroutine, so no call ever has to
+	// wait for a render slot of the rate limiter; every call gets its own context with a generous
+	// deadline (c17Deadline), so that an engine that does wait (a slot that was never given back) is
+	// observed as an error of that call instead of a harness that hangs.  After the first expired
+	// deadline of a harness run (which already is an alarm) the remaining calls of the run get
+	// c17DeadlineAfterStall: bounds the cost of a tree whose engine keeps waiting.
 	e := newEngine(dir, c.Debug, c.Limit, nil)
 	obs.Prep = []string{}
+	call := func(f func(ctx context.Context)) {
+		d := c17Deadline
+		if c17RunStalled {
+			d = c17DeadlineAfterStall
+		}
+		cctx, cancel := context.WithTimeout(ctx, d)
+		defer cancel()
+		f(cctx)
+		if cctx.Err() != nil {
+			obs.Stalled, c17RunStalled = true, true
+		}
+	}
 	for _, op := range c.Prep {
 		fresh := fresh
 		if len(op.Data) > 0 {
@@ -253,14 +302,24 @@ func runC17(c c17Case) (obs c17Obs, err error) {
 			cls, _ := safeLoad(e, "")
 			obs.Prep = append(obs.Prep, cls)
 		case "render":
-			obs.Prep = append(obs.Prep, safeRender(e, ctx, unhx(op.Name), fresh()).Class)
+			call(func(ctx context.Context) {
+				obs.Prep = append(obs.Prep, safeRender(e, ctx, unhx(op.Name), fresh()).Class)
+			})
 		case "partials":
-			cls, _, _ := c17Partials(e, ctx, tname, fresh(), unhxAll(op.Names))
-			obs.Prep = append(obs.Prep, cls)
+			t := tname
+			if op.T != nil {
+				t = unhx(*op.T)
+			}
+			call(func(ctx context.Context) {
+				cls, _, _ := c17Partials(e, ctx, t, fresh(), unhxAll(op.Names))
+				obs.Prep = append(obs.Prep, cls)
+			})
 		default:
 			return obs, fmt.Errorf("bad prep op %q", op.Op)
 		}
 	}
-	obs.Class, obs.NilMap, obs.Entries = c17Partials(e, ctx, tname, fresh(), unhxAll(c.Partials))
+	call(func(ctx context.Context) {
+		obs.Class, obs.NilMap, obs.Entries = c17Partials(e, ctx, tname, fresh(), unhxAll(c.Partials))
+	})
 	return obs, nil
 }
